@@ -1,8 +1,8 @@
 (* Tree/NoPanicProofsOp2HistReal.v — C12: the op2 history theorem on the regenerated tables (every table hypothesis
-   discharged: Tree/NoPanicProofsHistReal.v, MaskOK_real and PairOK_real of agent-c17). *)
+   discharged: Tree/NoPanicProofsHistReal.v, MaskOK_real of agent-c17). *)
 From AV Require Import Base.Bytes Base.Outcome Hash.HashModel Spec.SpecOps Spec.SpecReal Xml.TablesOk
   Tree.Heap Tree.Ops Tree.Script Tree.Script2 Tree.Inv Tree.SortProofsHeap Tree.SortProofsReadyV Tree.SortProofsReal
-  Tree.CompatHist1 Tree.CompatTyped Tree.CompatHistReal Tree.CompatReal.
+  Tree.CompatHist1 Tree.CompatHistReal.
 From AV Require Import Hash.HashRealElement Hash.HashRealAttr Hash.HashRealEnum.
 From AV Require Import Tree.NoPanic Tree.NoPanicProofsBase Tree.NoPanicProofsCopy2 Tree.NoPanicFloat Tree.NoPanicProofsHist Tree.NoPanicReal
   Tree.NoPanicProofsHistReal Tree.NoPanicProofsOp2 Tree.NoPanicProofsFiles Tree.NoPanicProofsSerFile Tree.NoPanicProofsOp2Hist.
@@ -30,7 +30,7 @@ Lemma hist2_real l w : H2r w -> wf_ops2' l w -> exists w', run_ops2F' l w = Val 
 Proof.
   exact (no_panic2_hist RT tab_element tab_attr tab_enum check_fn float_parse fmt LATEST name_index name_definition_ref
            attr_schema_location root_attrs tables_ok12_real CHECK en_ok_real short_ok_real NamesOK_real EnumsOK_real AttrsOK_real
-           RootOK (tkr_real check_fn) root_plain_real MaskOK_real PairOK_real l w).
+           RootOK (tkr_real check_fn) root_plain_real MaskOK_real l w).
 Qed.
 
 Theorem no_panic2_histories_real l : wf_ops2' l empty_world -> exists w', run_ops2F' l empty_world = Val w'.
@@ -38,14 +38,14 @@ Proof. intros WF. destruct (hist2_real l empty_world (H2_empty _ _ _ _) WF) as (
 
 (* one more call after any history *)
 Theorem no_panic2_after_history_real l w o :
-  run_ops2F' l empty_world = Val w -> wf_ops2' l empty_world -> covered_step2 o = true -> op2_wfh RT tab_element tab_enum w o ->
+  run_ops2F' l empty_world = Val w -> wf_ops2' l empty_world -> covered_step2 o = true -> op2_wfh tab_element tab_enum w o ->
   (forall s, run2F o w <> Pan s) /\ run2F o w <> Fuel.
 Proof.
   intros E WF COV WFo. destruct (hist2_real l empty_world (H2_empty _ _ _ _) WF) as (w' & E' & I).
   rewrite E in E'. injection E' as <-.
   destruct (no_panic_step2 RT tab_element tab_attr tab_enum check_fn float_parse fmt LATEST name_index name_definition_ref
               attr_schema_location root_attrs tables_ok12_real CHECK en_ok_real short_ok_real EnumsOK_real AttrsOK_real
-              MaskOK_real PairOK_real o w COV WFo I) as (x & w1 & R).
+              MaskOK_real o w COV WFo I) as (x & w1 & R).
   rewrite R. split; [intros s|]; discriminate.
 Qed.
 
